@@ -68,7 +68,7 @@ def gen_spec(rng: random.Random, prog: list, malformed: float = 0.06, names=NAME
     i = len(prog)
     s = {"name": rng.choice(names), "outer": rng.choice([None, None, "H0"]),
          "dataclass": rng.random() >= malformed, "slot": rng.random() < 0.8,
-         "hooks": rng.choices(["none", "pair", "get", "set"], [6, 3, 1, 1])[0],
+         "hooks": rng.choices(["none", "pair", "pairlist", "get", "set"], [12, 4, 3, 2, 2])[0],
          "classvar": rng.random() < 0.3, "method": rng.random() < 0.3, "super_repr": rng.random() < 0.04,
          "dict": rng.random() < 0.5, "weakref": rng.random() < 0.5, "bare": rng.random() < 0.15,
          "reslot": False, "post_init": rng.random() < 0.3, "cached": rng.random() < 0.2}
@@ -206,6 +206,11 @@ def class_source(i: int, s: dict, prog: list | None = None) -> str:
         body.append("def __getstate__(self):\n    return ('v1', {f.name: getattr(self, f.name) for f in dataclasses.fields(self)})")
         body.append("def __setstate__(self, state):\n    tag, values = state\n    assert tag == 'v1'\n"
                     "    for k, v in values.items():\n        object.__setattr__(self, k, v)")
+    if s["hooks"] == "pairlist":
+        # a second private format that is not a dict at all: (version, [values in field order])
+        body.append("def __getstate__(self):\n    return (2, [getattr(self, f.name) for f in dataclasses.fields(self)])")
+        body.append("def __setstate__(self, state):\n    version, values = state\n    assert version == 2\n"
+                    "    for f, v in zip(dataclasses.fields(self), values):\n        object.__setattr__(self, f.name, v)")
     if s["hooks"] == "get":
         body.append("def __getstate__(self):\n    return {f.name: getattr(self, f.name) for f in dataclasses.fields(self)}")
     if s["hooks"] == "set":
@@ -284,3 +289,49 @@ def histories(maxlen: int, names=("K0", "K1")):
                                 s["fields"] = [{"name": f"f{pos}", "def": "default"}] if inh else s["fields"]
                     prog.append(s)
                 yield prog
+
+
+# ----------------------------------------------------------------------------------
+# class families for the instance layer (construction, comparison, state protocol)
+# ----------------------------------------------------------------------------------
+
+def families():
+    """two- and three-class chains that put each instance-level feature over a slotted and an unslotted base: a
+    re-declared base field with a new default, inherited user state hooks in two non-default formats, default
+    factories, unsafe_hash, order=True, an eq=False child of an eq=True base, __post_init__ state with dict=True"""
+    out = []
+    features = ["redeclare", "redeclare_factory", "pair", "pairlist", "factory", "unsafe_hash", "order", "eq_false_child",
+                "post_init", "plain"]
+    for base_slotted in (True, False):
+        for frozen in (False, True):
+            for feat in features:
+                for child_dict in (False, True):
+                    base = _mk("K0", slot=base_slotted, frozen=frozen, weakref=False,
+                               fields=[{"name": "a", "def": "none"}, {"name": "b", "def": "default"}])
+                    child = _mk("K1", base=0, frozen=frozen, dict=child_dict, weakref=False,
+                                fields=[{"name": "c", "def": "default"}])
+                    if feat == "redeclare":
+                        child["fields"] = [{"name": "b", "def": "default"}, {"name": "c", "def": "default"}]
+                    elif feat == "redeclare_factory":
+                        child["fields"] = [{"name": "b", "def": "factory"}, {"name": "c", "def": "default"}]
+                    elif feat in ("pair", "pairlist"):
+                        base["hooks"] = feat
+                    elif feat == "factory":
+                        child["fields"] = [{"name": "c", "def": "factory"}, {"name": "d", "def": "default"}]
+                    elif feat == "unsafe_hash":
+                        child["unsafe_hash"] = True
+                    elif feat == "order":
+                        base["order"] = child["order"] = True
+                    elif feat == "eq_false_child":
+                        child["eq"] = False
+                    elif feat == "post_init":
+                        child["post_init"] = True
+                    out.append([base, child])
+                    if feat in ("pair", "pairlist", "redeclare") and not child_dict:
+                        grand = _mk("K2", base=1, frozen=frozen, weakref=False,
+                                    fields=[{"name": "a", "def": "none"}, {"name": "e", "def": "default"}]
+                                    if feat == "redeclare" else [{"name": "e", "def": "default"}])
+                        if feat == "redeclare":       # a re-declared field keeps its place: everything after it has a default
+                            grand["fields"] = [{"name": "b", "def": "default"}, {"name": "e", "def": "default"}]
+                        out.append([dict(base), dict(child), grand])
+    return out
